@@ -144,6 +144,24 @@ func (a *Authority) unsafeLoadProvisionerFromDatabase(crt *x509.Certificate) (pr
 	return nil, admin.NewError(admin.ErrorNotFoundType, "unable to load provisioner from certificate")
 }
 
+// certificateRecordsProvisioner returns true if the database has a record for
+// the given certificate that names the provisioner that issued it.
+func (a *Authority) certificateRecordsProvisioner(crt *x509.Certificate) bool {
+	type certificateDataGetter interface {
+		GetCertificateData(string) (*db.CertificateData, error)
+	}
+
+	var err error
+	var data *db.CertificateData
+
+	if cdg, ok := a.adminDB.(certificateDataGetter); ok {
+		data, err = cdg.GetCertificateData(crt.SerialNumber.String())
+	} else if cdg, ok := a.db.(certificateDataGetter); ok {
+		data, err = cdg.GetCertificateData(crt.SerialNumber.String())
+	}
+	return err == nil && data != nil && data.Provisioner != nil
+}
+
 // LoadProvisionerByToken returns an interface to the provisioner that
 // provisioned the token.
 func (a *Authority) LoadProvisionerByToken(token *jose.JSONWebToken, claims *jose.Claims) (provisioner.Interface, error) {
